@@ -5452,6 +5452,44 @@ where
     }
 }
 
+// =============================================================================
+// VERIFICATION HOOKS (compiled only with `--cfg delaunay_verif`)
+// =============================================================================
+
+/// Read-only observers of the performance caches, used by the model-based conformance
+/// harness to compare the real cache state with the TLA+ cache model after every call.
+#[cfg(delaunay_verif)]
+impl<K, U, V, const D: usize> DelaunayTriangulation<K, U, V, D>
+where
+    K: Kernel<D>,
+    U: DataType,
+    V: DataType,
+{
+    /// Keys stored in the spatial duplicate-detection index (`None` = index absent).
+    #[must_use]
+    pub fn verif_spatial_index_keys(&self) -> Option<Vec<VertexKey>> {
+        self.spatial_index.as_ref().map(HashGridIndex::verif_keys)
+    }
+
+    /// Whether the spatial index, if present, is usable for lookups.
+    #[must_use]
+    pub fn verif_spatial_index_usable(&self) -> Option<bool> {
+        self.spatial_index.as_ref().map(HashGridIndex::is_usable)
+    }
+
+    /// The cached locate hint (`last_inserted_cell`).
+    #[must_use]
+    pub const fn verif_locate_hint(&self) -> Option<CellKey> {
+        self.insertion_state.last_inserted_cell
+    }
+
+    /// The insertion counter that drives `DelaunayRepairPolicy::EveryN` / `DelaunayCheckPolicy::EveryN`.
+    #[must_use]
+    pub const fn verif_insertion_count(&self) -> usize {
+        self.insertion_state.delaunay_repair_insertion_count
+    }
+}
+
 // Custom Serialize implementation that only serializes the Tds
 impl<K, U, V, const D: usize> Serialize for DelaunayTriangulation<K, U, V, D>
 where
